@@ -1161,6 +1161,8 @@ def census(F, rep, contracts):
             status = "contract:" + contracts[id(n)] if id(n) in contracts else guarded(n, parents) or "unreviewed"
             if status == "unreviewed" and kind.startswith("unwrap"):
                 why = UNWRAP_REVIEWED.get((last(fn["_path"], 2), _shape(n)))
+                for d_ in (1, 2, 3):
+                    why = why or UNWRAP_REVIEWED.get((last(fn["_path"], 2), _shape(_inline_lets(n, fn, d_))))
                 if why:
                     status = "reviewed:" + why
                 else:
@@ -1229,6 +1231,25 @@ UNSIGNED_SUB = {
     ("sylt_tokenizer::string_to_tokens", "($1[$2.end].unwrap() Sub $3)"):
         "last_newline is the character index of a newline met before this token",
 }
+
+
+def _inline_lets(n, fn, depth=4):
+    """n with every local that a plain `let x = <expr>` introduced replaced by that expression (so that naming an intermediate
+    value does not change the shape a site is keyed by)"""
+    import copy
+    fl = Flow(fn, fn_body(fn))
+
+    def sub(x, d):
+        if isinstance(x, list):
+            return [sub(y, d) for y in x]
+        if not isinstance(x, dict):
+            return x
+        if x.get("k") == "Path" and x.get("res") == "Local" and d > 0:
+            o = fl.origin.get(x.get("hid"))
+            if o and o["kind"] == "let" and o.get("path") == () and isinstance(o.get("src"), dict):
+                return sub(copy.deepcopy(o["src"]), d - 1)
+        return {k_: sub(v_, d) for k_, v_ in x.items()}
+    return sub(copy.deepcopy(n), depth)
 
 
 def _shape(n):
